@@ -97,6 +97,12 @@ func (i *Interceptors) NewSegment(val string) (*Segment, error) {
 		return seg, nil
 	}
 
+	// rule 本身必须是合法的表达式，否则类似 a)|(b 的内容在加上括号之后也能编译，
+	// 但是匹配时命名的分组可能并不参与匹配。
+	if _, err := regexp.Compile(seg.rule); err != nil {
+		return nil, err
+	}
+
 	seg.Type = Regexp
 	seg.Name = val[start+1 : separator]
 	seg.cleanName()
